@@ -2,6 +2,7 @@ package main
 
 import (
 	"fmt"
+	"os"
 	"go/token"
 	"go/types"
 	"strings"
@@ -112,6 +113,39 @@ func instrWriteKeys(blocks []*ssa.BasicBlock, only map[*ssa.BasicBlock]bool, see
 				if rootAlloc(x.Addr) != nil {
 					continue
 				}
+				if freshBase(x.Addr, map[ssa.Value]bool{}) {
+					continue // a store into memory this very function allocated: invisible to the caller's state
+				}
+				if os.Getenv("GOVC_DEBUG") != "" {
+					fmt.Fprintf(os.Stderr, "  store key in %s: %s at %s\n", b.Parent().Name(), x.String(), b.Parent().Prog.Fset.Position(x.Pos()))
+					var chain func(v ssa.Value, d int)
+					chain = func(v ssa.Value, d int) {
+						if d > 6 {
+							return
+						}
+						fmt.Fprintf(os.Stderr, "    %*s%T %s = %s\n", d*2, "", v, v.Name(), v.String())
+						switch y := v.(type) {
+						case *ssa.IndexAddr:
+							chain(y.X, d+1)
+						case *ssa.FieldAddr:
+							chain(y.X, d+1)
+						case *ssa.UnOp:
+							chain(y.X, d+1)
+							if cell, ok := y.X.(*ssa.Alloc); ok {
+								for _, ref := range *cell.Referrers() {
+									if s2, ok := ref.(*ssa.Store); ok && s2.Addr == cell {
+										chain(s2.Val, d+2)
+									}
+								}
+							}
+						case *ssa.Call:
+							if len(y.Call.Args) > 0 {
+								chain(y.Call.Args[0], d+1)
+							}
+						}
+					}
+					chain(x.Addr, 0)
+				}
 				addKeys(x.Addr, out)
 			case *ssa.Alloc:
 				if x.Heap {
@@ -119,9 +153,8 @@ func instrWriteKeys(blocks []*ssa.BasicBlock, only map[*ssa.BasicBlock]bool, see
 				}
 			case *ssa.MakeSlice, *ssa.MakeInterface, *ssa.MakeClosure:
 				out["$frontier"] = true
-			case *ssa.MapUpdate, *ssa.Send:
-				out["$all"] = true
-				out[""] = true // every heap key has this prefix
+			case *ssa.MapUpdate:
+				out["M|"] = true // Go maps are separate objects (modelled abstractly); no slice or struct changes
 			case *ssa.Call:
 				if x.Call.IsInvoke() {
 					continue // interface callees are assumed to modify only state of their own (listed assumption)
@@ -131,10 +164,16 @@ func instrWriteKeys(blocks []*ssa.BasicBlock, only map[*ssa.BasicBlock]bool, see
 					switch g.Name() {
 					case "append":
 						out["$frontier"] = true
+						if freshBase(x.Call.Args[0], map[ssa.Value]bool{}) {
+							continue // in-place growth of a slice this function allocated
+						}
 						if sl, ok := x.Type().Underlying().(*types.Slice); ok {
 							out["A|"+typeKey(sl.Elem())+"|"] = true
 						}
 					case "copy":
+						if freshBase(x.Call.Args[0], map[ssa.Value]bool{}) {
+							continue
+						}
 						if sl, ok := x.Call.Args[0].Type().Underlying().(*types.Slice); ok {
 							out["A|"+typeKey(sl.Elem())+"|"] = true
 						}
@@ -407,3 +446,78 @@ func (e *Exec) streamRun(fr *Frame, st *BState, x *ssa.Call) SV {
 	return res
 }
 
+
+// freshBase: the memory v denotes (a slice, or an address into one / into an object) was allocated by the function
+// v belongs to: a make / composite literal / new, a slice or element of such, an append to such, or a local variable
+// that is only ever assigned such values.
+func freshBase(v ssa.Value, seen map[ssa.Value]bool) bool {
+	if seen[v] {
+		return true // cycle through a loop-carried variable: decided by the other assignments
+	}
+	seen[v] = true
+	switch x := v.(type) {
+	case *ssa.MakeSlice:
+		return true
+	case *ssa.Alloc:
+		return x.Heap
+	case *ssa.Slice:
+		return freshBase(x.X, seen)
+	case *ssa.IndexAddr:
+		return freshBase(x.X, seen)
+	case *ssa.FieldAddr:
+		return freshBase(x.X, seen)
+	case *ssa.Call:
+		if b, ok := x.Call.Value.(*ssa.Builtin); ok && b.Name() == "append" {
+			return freshBase(x.Call.Args[0], seen)
+		}
+		return false
+	case *ssa.UnOp:
+		if x.Op != token.MUL {
+			return false
+		}
+		cell, ok := x.X.(*ssa.Alloc)
+		if !ok {
+			return false
+		}
+		if cell.Heap {
+			// a captured local variable: acceptable when the capturing closures never assign it
+			for _, ref := range *cell.Referrers() {
+				switch r := ref.(type) {
+				case *ssa.Store, *ssa.UnOp, *ssa.DebugRef:
+				case *ssa.MakeClosure:
+					for bi, bv := range r.Bindings {
+						if bv != cell {
+							continue
+						}
+						fv := r.Fn.(*ssa.Function).FreeVars[bi]
+						for _, fr := range *fv.Referrers() {
+							if s2, ok := fr.(*ssa.Store); ok && s2.Addr == fv {
+								return false
+							}
+							if _, isClosure := fr.(*ssa.MakeClosure); isClosure {
+								return false
+							}
+						}
+					}
+				default:
+					return false // address taken in some other way
+				}
+			}
+		}
+		// every value stored into the local variable is fresh
+		n := 0
+		for _, ref := range *cell.Referrers() {
+			if stv, ok := ref.(*ssa.Store); ok && stv.Addr == cell {
+				n++
+				if c, isConst := stv.Val.(*ssa.Const); isConst && c.Value == nil {
+					continue // nil
+				}
+				if !freshBase(stv.Val, seen) {
+					return false
+				}
+			}
+		}
+		return n > 0
+	}
+	return false
+}
